@@ -24,19 +24,25 @@ CONTRACTS   U = filter.units, g/req = the filter's dependency graph / required l
                               their value; the new unit has reserved exactly 1 + |offsets| ids
     [C19:reserve-unit-logged] read_units grows by exactly (unit, new id); dwarf.units grows by exactly one unit, the others
                               are unchanged
-  new_with_filter(dwarf, filter), on Ok(c): there are r (the reachable list) and cut points cuts[0..=|U|] with
-    reach_valid/required/closed/minimal(g, req, r), sorted, no duplicates  (the get_reachable contract of batch filter)
+  new_with_filter(dwarf, filter), on Ok(c), with "r is THE reachable list" = is_reachable_list(g, req, r) =
+    reach_valid/required/closed/minimal(g, req, r), sorted, no duplicates  (the get_reachable contract of batch filter):
     [C19:reserve-every-unit]      c.read_units has exactly |U| elements, element i is (U[i], id n0 + i): one reserve_unit per
                                   unit, in input order, whatever the number of reachable entries;  every U[i]'s root offset is
                                   in the id table with (id n0 + i, root of written unit n0 + i)
-    [C19:reserve-reachable-only]  partition_ok(U, r, cuts): cuts is monotone from 0 to |r| and r[j] lies in unit i  <==>
-                                  cuts[i] <= j < cuts[i+1]  (the slice passed for unit i is EXACTLY the reachable offsets of
-                                  unit i: nothing dropped, nothing from another unit);  r[j] of slice i maps to
-                                  (id n0 + i, entry id 1 + j - cuts[i]);  written unit n0 + i has 1 + cuts[i+1] - cuts[i] ids
+    [C19:reserve-reachable-only]  there are r and cut points cuts[0..=|U|] with partition_ok(U, r, cuts): cuts is monotone
+                                  from 0 to |r| and  r[j] lies in unit i  <==>  cuts[i] <= j < cuts[i+1]  (the slice passed
+                                  for unit i is EXACTLY the reachable offsets of unit i: nothing dropped, nothing from another
+                                  unit);  r[j] of slice i maps to (id n0 + i, entry id 1 + j - cuts[i]);  written unit n0 + i
+                                  has 1 + cuts[i+1] - cuts[i] reserved ids
     [C19:reserve-only]            every key of the id table is a root offset of some U[i] or some r[j]
+    [C19:reserve-total]           res is Ok
     the debug_assert_eq!(end, offsets.len()) is a proof obligation (R-ASSERT): every reachable offset was handed to a unit
     safety: offsets.get(end) / &offsets[start..end] in bounds, `end += 1` and `reserved += 1` do not overflow, termination
-    Ok is always returned ([C19:reserve-total] res is Ok).
+    The loop invariants carry the same tags (logged / roots_ok -> reserve-every-unit; partition_ok / slices_ok / the run
+    invariant of the inner loop -> reserve-reachable-only; keys_only -> reserve-only); the step is proved by
+    lemma_partition_step (vx/specs/filter_reserve.rs) and lemma_step_{roots,slices,keys} from reserve_post = the literal
+    postconditions of reserve_unit for the slice r[cuts[k]..end].
+  to_unit_offset(unit)  [C19:unit-membership] Some <==> in_unit(unit, self) (at/after the unit start and in bounds), value
 
 ASSUMPTIONS ABOUT THE CALLER (requires of new_with_filter; `section_wf`, not verified here)
   W-ORDER   units_ordered(U): the units are in section order and do not overlap (i < j, a in unit i, b in unit j => a < b).
@@ -59,6 +65,9 @@ TRUSTED beyond filter's (each external_body / assume_specification in the genera
   LineProgram (MODEL type), LineProgram::none     opaque argument of Unit::new
   R-FIELDS: write::Dwarf projected to {units}; FilterUnitSection.unit_headers dropped (untouched by new_with_filter)
   R-SELF call site: `filter.deps.get_reachable()` -> `get_reachable(filter.deps)` (filter's R-SELF free fn)
+  R-FORLOOP: `for unit in filter.units { B }` -> `let mut verif_units = filter.units.into_iter(); loop { let Some(unit) =
+      verif_units.next() else { break; }; B }` (the desugaring of `for`; vstd's prophetic IntoIter model): Verus rejects
+      `continue` inside `for`, and a body that leaves an iteration early must be judged (exit 1), not rejected (exit 2)
 
 NOT DECIDED
   ConvertUnitSection::new (unfiltered path: Dwarf::units()/unit() iterator + read_entry_offsets; all three would be models),
@@ -382,6 +391,7 @@ def populate_reserve(ctx, sk):
     sk.mods[M]['uses'] += """
 use crate::constants;
 use crate::read::{self, Reader, ReaderOffset};
+use vstd::std_specs::iter::IteratorSpec;
 use crate::write::unit::{Unit, UnitTable, UnitId, UnitEntryId};
 use crate::write::{BaseId, Dwarf, LineProgram};"""
     sk.mods['fspec']['uses'] += '\nuse crate::read::UnitOffset;'
@@ -413,6 +423,10 @@ use crate::write::{BaseId, Dwarf, LineProgram};"""
     imp.drop(['new', 'read_unit'])      # (indented impl: keep_only's header regex does not apply)
     # R-SELF (call site): filter.py emits `get_reachable(mut self)` as a free fn `get_reachable(this)`
     imp.custom('R-SELF', 'filter.deps.get_reachable()', 'get_reachable(filter.deps)')
+    # R-FORLOOP: the `for` over the units is written as the loop it abbreviates (IntoIterator::into_iter + next): Verus
+    # `for` loops do not support `continue` (a body with an early `continue` must be JUDGED, not rejected by the front end)
+    imp.custom('R-FORLOOP', 'for unit in filter.units {',
+               'let mut verif_units = filter.units.into_iter(); loop { let Some(unit) = verif_units.next() else { break; };')
     imp.clean()
     imp.own(OWN)
     imp.insert_after("impl<'a, R: Reader<Offset = usize>> ConvertUnitSection<'a, R> {", """
@@ -421,7 +435,6 @@ use crate::write::{BaseId, Dwarf, LineProgram};"""
         pub closed spec fn wunits(&self) -> Seq<Unit> { self.dwarf.units.tunits() }
         pub closed spec fn wbase(&self) -> BaseId { self.dwarf.units.tbase() }
 """)
-    imp.insert_after('for unit in ', 'itu: ')
     imp.insert_after('for offset in ', 'ito: ')
 
     # ---------------------------------------------------------------------------------------------- reserve_unit
@@ -456,7 +469,7 @@ use crate::write::{BaseId, Dwarf, LineProgram};"""
     N0W = '(old(dwarf).units.tunits().len() as int)'
     N = f'({US}.len() as int)'
     R = 'offsets@'
-    KK = '(itu.index as int)'
+    KK = 'kk'
     TABLES = 'convert.runits(), convert.ids(), convert.wunits()'
     imp.splice('new_with_filter', ret='res', attrs='#[verifier::loop_isolation(false)]\n#[verifier::allow_complex_invariants]',
                requires=[f'section_wf({US}, {G})'],
@@ -473,25 +486,31 @@ use crate::write::{BaseId, Dwarf, LineProgram};"""
                before=[('let mut convert = ConvertUnitSection {',
                         f'let ghost us = {US}; let ghost g = {G}; let ghost req = {REQ}; let ghost n0 = dwarf.units.tunits().len() as int; let ghost tb = dwarf.units.tbase();')],
                after=[('let offsets = get_reachable(filter.deps);',
-                       'let ghost mut cuts: Seq<int> = seq![0int];\n'
-                       'proof { lemma_reach_len(g, offsets@); assert(is_reachable_list(g, req, offsets@)); }')],
+                       'let ghost mut cuts: Seq<int> = seq![0int]; let ghost mut kk: int = 0;\n'
+                       'proof { lemma_reach_len(g, offsets@); assert(is_reachable_list(g, req, offsets@)); }'),
+                      ('let mut verif_units = filter.units.into_iter();', 'proof { assert(us.skip(0) =~= us); }'),
+                      # kk counts the units taken from the iterator (advanced HERE, so that a body that leaves early is judged
+                      # against the invariants for kk units)
+                      ('let Some(unit) = verif_units.next() else { break; };',
+                       'let ghost k = kk; let ghost ru0 = convert.runits(); let ghost ids0 = convert.ids(); let ghost wus0 = convert.wunits();\n'
+                       'proof { assert(unit == us[k]); assert(us.skip(k).skip(1) =~= us.skip(k + 1)); kk = kk + 1; }')],
                loops={
                    0: f'''invariant
+                    0 <= kk <= us.len(), verif_units.remaining() == us.skip(kk),
                     0 <= end <= {R}.len(), cuts[{KK}] == end, split_inv(us, {R}, {KK}, end as int),
                     partition_ok(us, {R}, cuts, {KK}), // [C19:reserve-reachable-only]
                     logged(convert.runits(), tb, us, n0, {KK}), convert.wunits().len() == n0 + {KK}, convert.wbase() == tb, // [C19:reserve-every-unit]
                     roots_ok({TABLES}, us, n0, {KK}), // [C19:reserve-every-unit]
                     slices_ok({TABLES}, {R}, cuts, n0, {KK}), // [C19:reserve-reachable-only]
-                    keys_only(convert.ids(), us, {R}, end as int, {KK}), // [C19:reserve-only]''',
+                    keys_only(convert.ids(), us, {R}, end as int, {KK}), // [C19:reserve-only]
+                ensures kk == us.len(),
+                decreases us.len() - kk,''',
                    1: f'''invariant
                     start <= end <= {R}.len(),
                     forall|j: int| start <= j < end ==> in_unit(unit.header, #[trigger] {R}[j]), // [C19:reserve-reachable-only]
                 ensures
                     end == {R}.len() || !in_unit(unit.header, {R}[end as int]), // [C19:reserve-reachable-only]
                 decreases {R}.len() - end,'''})
-    fbase.insert_at_loop_body(imp, 'new_with_filter', 0,
-                              f'let ghost k = {KK}; let ghost ru0 = convert.runits(); let ghost ids0 = convert.ids(); let ghost wus0 = convert.wunits();\n'
-                              'proof { assert(unit == us[k]); }', end=False)
     fbase.insert_at_loop_body(imp, 'new_with_filter', 0, f'''proof {{
                     // the slice handed to reserve_unit is r[cuts[k]..end]: the maximal run of reachable offsets inside unit k
                     lemma_partition_step(us, {R}, cuts, k, cuts[k], end as int); // [C19:reserve-reachable-only]
